@@ -419,4 +419,93 @@ def wfB (st : PT) : Bool :=
     (st.heap.get S).left == 0 && (st.heap.get S).right == 0 &&
     st.heap.m.contains S && ids.all (fun i => st.heap.m.contains i)
 
+/-! ### the public calls with their status and out-value (what the C functions return)
+
+`step` is one call of the table API on the pointer-level state: the status code, the out-value and the callback
+log exactly as `cc_treetable_*` produce them, computed from the heap by the loops above (`addDescent`, `findLoop`,
+`tree_min`/`tree_max`, `get_successor_node`/`get_predecessor_node`, the in-order walk of the `foreach` functions).
+`ok` is the allocator's answer to the one request `add` may make.  `Proofs/PTreeStep.lean` proves that it returns
+what the ordered-map specification demands (`pstep_refines`). -/
+
+/-- the in-order walk `n = tree_min(root); while (n != sentinel) { …; n = get_successor_node(n); }` of the iterator,
+`foreach_key`, `foreach_value`, `contains_value` -/
+def walkLoop (st : PT) : Nat → Nat → List (Nat × Nat)
+  | 0, _ => []
+  | f + 1, n =>
+    if n = S then []
+    else ((st.heap.get n).key, (st.heap.get n).value) :: walkLoop st f (successor st.heap (st.size + 1) n)
+def inorder (st : PT) : List (Nat × Nat) := walkLoop st (st.size + 1) (treeMin st.heap (st.size + 1) st.root)
+
+def step (cmp : Nat → Nat → Int) (st : PT) (op : Spec.OrdMap.Op) (ok : Bool) : Spec.OrdMap.Out × PT :=
+  match op with
+  | .add k v =>
+    let d := addDescent cmp st.heap k (st.size + 1) S st.root
+    ({ st := some (if d.2 ≠ S then .ok else if ok then .ok else .errAlloc) }, add cmp st k v ok)
+  | .get k =>
+    match findNode cmp st k with
+    | some n => ({ st := some .ok, val := some (st.heap.get n).value }, st)
+    | none => ({ st := some .errKeyNotFound }, st)
+  | .containsKey k => ({ val := some (if (findNode cmp st k).isSome then 1 else 0) }, st)
+  | .containsValue v => ({ val := some ((inorder st).filter (fun e => e.2 == v)).length }, st)
+  | .remove k =>
+    match findNode cmp st k with
+    | some n => ({ st := some .ok, val := some (st.heap.get n).value }, removeNode st n)
+    | none => ({ st := some .errKeyNotFound }, st)
+  | .removeFirst =>
+    if st.size = 0 then ({ st := some .errKeyNotFound }, st)
+    else
+      let n := treeMin st.heap (st.size + 1) st.root
+      ({ st := some .ok, val := some (st.heap.get n).value }, removeNode st n)
+  | .removeLast =>
+    if st.size = 0 then ({ st := some .errKeyNotFound }, st)
+    else
+      let n := treeMax st.heap (st.size + 1) st.root
+      ({ st := some .ok, val := some (st.heap.get n).value }, removeNode st n)
+  | .removeAll => ({}, removeAll st)
+  | .firstKey =>
+    let n := treeMin st.heap (st.size + 1) st.root
+    if n = S then ({ st := some .errKeyNotFound }, st) else ({ st := some .ok, val := some (st.heap.get n).key }, st)
+  | .lastKey =>
+    let n := treeMax st.heap (st.size + 1) st.root
+    if n = S then ({ st := some .errKeyNotFound }, st) else ({ st := some .ok, val := some (st.heap.get n).key }, st)
+  | .firstValue =>
+    let n := treeMin st.heap (st.size + 1) st.root
+    if n = S then ({ st := some .errValueNotFound }, st) else ({ st := some .ok, val := some (st.heap.get n).value }, st)
+  | .lastValue =>
+    let n := treeMax st.heap (st.size + 1) st.root
+    if n = S then ({ st := some .errValueNotFound }, st) else ({ st := some .ok, val := some (st.heap.get n).value }, st)
+  | .greaterThan k =>
+    match findNode cmp st k with
+    | none => ({ st := some .errKeyNotFound }, st)
+    | some n =>
+      let s := successor st.heap (st.size + 1) n
+      if s = S then ({ st := some .errKeyNotFound }, st) else ({ st := some .ok, val := some (st.heap.get s).key }, st)
+  | .lesserThan k =>
+    match findNode cmp st k with
+    | none => ({ st := some .errKeyNotFound }, st)
+    | some n =>
+      let s := predecessor st.heap (st.size + 1) n
+      if s = S then ({ st := some .errKeyNotFound }, st) else ({ st := some .ok, val := some (st.heap.get s).key }, st)
+  | .foreachKey => ({ log := (inorder st).map (·.1) }, st)
+  | .foreachValue => ({ log := (inorder st).map (·.2) }, st)
+  | .size => ({ val := some st.size }, st)
+
+/-- a history: every call with the allocator's answer to its request -/
+def run (cmp : Nat → Nat → Int) (st : PT) : List (Spec.OrdMap.Op × Bool) → List Spec.OrdMap.Out × PT
+  | [] => ([], st)
+  | (op, refused) :: rest =>
+    let r := step cmp st op (!refused)
+    let rs := run cmp r.2 rest
+    (r.1 :: rs.1, rs.2)
+
+/-- the descent of `cc_treetable_add` / `get_tree_node_by_key` with the number of comparator calls (one per node
+visited; the C code calls `cmp` once per iteration) -/
+def descentCount (cmp : Nat → Nat → Int) (h : Heap) (k : Nat) : Nat → Nat → Nat
+  | 0, _ => 0
+  | f + 1, n =>
+    if n = S then 0
+    else if cmp k (h.get n).key < 0 then descentCount cmp h k f (h.get n).left + 1
+    else if 0 < cmp k (h.get n).key then descentCount cmp h k f (h.get n).right + 1
+    else 1
+
 end CC.PTree
